@@ -920,11 +920,11 @@ def plan(tier):
     specs = []
     if tier == "quick":
         for i in range(11):
-            specs.append({"part": "rt", "n": 1500, "i": i})
-        specs.append({"part": "rt-edge", "n": 4000, "i": 0})
-        specs.append({"part": "rt-obj", "n": 1500, "i": 0})
-        specs.append({"part": "ood", "n": 1500, "i": 0})
-        specs.append({"part": "ood", "n": 1500, "i": 1})
+            specs.append({"part": "rt", "n": 4000, "i": i})
+        specs.append({"part": "rt-edge", "n": 12000, "i": 0})
+        specs.append({"part": "rt-obj", "n": 5000, "i": 0})
+        specs.append({"part": "ood", "n": 4000, "i": 0})
+        specs.append({"part": "ood", "n": 4000, "i": 1})
         specs.append({"part": "limit"})
     else:
         for i in range(22):
@@ -942,7 +942,7 @@ def plan(tier):
 def account(ctx, values, outcome, label):
     ctx.label(label + ":" + outcome)
     if outcome != "ok":
-        return
+        return False
     si = ShapeInfo()
     shp = tuple(shape(norm(v), si) for v in values)
     if si.edge_int:
@@ -957,12 +957,14 @@ def account(ctx, values, outcome, label):
         ctx.label("concatenated")
     if si.edge_int or si.user_class or si.max_depth >= 2:
         ctx.nt(shp)
+        return True
+    return False
 
 
 def rt_body(ctx, specs, label="rt"):
     values = [build(s) for s in specs]
     outcome = check_values(ctx, values)
-    account(ctx, values, outcome, label)
+    return account(ctx, values, outcome, label)
 
 
 def run_rt(spec, ctx):
@@ -980,8 +982,8 @@ def run_rt(spec, ctx):
         if ctx.out_of_time():
             return
         ctx.case({"part": "rt", "values": specs})
-        rt_body(ctx, specs, part)
-        ctx.sample({"part": "rt", "values": specs})
+        if rt_body(ctx, specs, part) and len(repr(specs)) < 1500:
+            ctx.sample({"part": "rt", "values": specs})
 
     test()
 
@@ -1038,12 +1040,15 @@ def run_limit(spec, ctx):
                            "ints at +-2**63 edges; every width-threshold int +-1")
 
 
-def run_shard(spec, ctx):
-    # safety net: a runaway allocation must end as MemoryError (harness error) in this process, not as an OOM kill
+def limit_memory(cap=8 * 2 ** 30):
+    """safety net: a runaway allocation must end as MemoryError (harness error) in this process, not as an OOM kill"""
     soft, hard = resource.getrlimit(resource.RLIMIT_AS)
-    cap = 8 * 2 ** 30
     if soft == resource.RLIM_INFINITY or soft > cap:
         resource.setrlimit(resource.RLIMIT_AS, (cap, hard))
+
+
+def run_shard(spec, ctx):
+    limit_memory()
     part = spec["part"]
     if part in ("rt", "rt-edge", "rt-obj"):
         run_rt(spec, ctx)
